@@ -1008,8 +1008,8 @@ func (b *Backend) emitMatrixType(columnTypeID uint32, columnCount uint32) uint32
 // imageTypeKey creates a cache key for an image type.
 func imageTypeKey(img ir.ImageType) uint64 {
 	// Pack dimension (3 bits), arrayed (1 bit), multisampled (1 bit), class (3 bits),
-	// storage format (8 bits), sampled scalar kind (4 bits).
-	// Storage format is needed because different formats produce different OpTypeImage
+	// image format (8 bits), sampled scalar kind (4 bits).
+	// The format is needed because different formats produce different OpTypeImage
 	// instructions (different image format and potentially different sampled type).
 	key := uint64(img.Dim) & 0x07
 	if img.Arrayed {
@@ -1020,7 +1020,9 @@ func imageTypeKey(img ir.ImageType) uint64 {
 	}
 	key |= (uint64(img.Class) & 0x07) << 5
 	if img.Class == ir.ImageClassStorage {
-		key |= uint64(img.StorageFormat) << 8
+		// Key on the SPIR-V image format, not the IR one: two IR formats that map to the same
+		// ImageFormat (rgba8unorm / bgra8unorm) must share one OpTypeImage.
+		key |= uint64(StorageFormatToImageFormat(img.StorageFormat)) << 8
 	}
 	if img.Class == ir.ImageClassSampled {
 		key |= uint64(img.SampledKind) << 16
